@@ -80,6 +80,14 @@ class Tr:
         vals = [env[n][0] for n in names]
         return vals[0] if len(vals) == 1 else '(%s)' % ', '.join(vals)
 
+    def xmode(self):
+        """`raise_as_value`: a RuntimeError is not `Err` but the value `Ok (state at the raise, None)`; a normal return is
+        `Ok (state, Some v)` - the translation then says what a rejected call leaves behind"""
+        return bool(self.spec.get('raise_as_value'))
+
+    def rejected(self, env):
+        return 'Ok (%s, XErr)' % self.state_value(env)
+
     def state_pattern(self, fresh_names):
         return fresh_names[0] if len(fresh_names) == 1 else '(%s)' % ', '.join(fresh_names)
 
@@ -135,6 +143,7 @@ class Tr:
     # ---- expressions (CPS: k(atom, type) -> coq text of type res RET) ------------------------------------
     def expr(self, e, env, k):
         sp = self.spec
+        self.stmt_env = env            # evaluating an expression does not change the state: any env seen here carries it
         if sp.get('expr_rewrites') and not isinstance(e, (ast.Constant, ast.Name)):
             # expressions whose meaning the spec gives outright (each one a stated convention): `text`: (coq template, type)
             txt = ast.unparse(e)
@@ -498,6 +507,10 @@ class Tr:
         app = '(%s %s)' % (f, ' '.join(atoms)) if atoms else f
         if tf[3]:
             v = self.fresh('r')
+            if self.xmode():
+                rej = self.rejected(self.stmt_env)        # the callee is pure: the state is that of the statement
+                c_ = self.fresh('c')
+                return '(match %s with Ok %s => %s | Err => %s | Crash %s => Crash %s end)' % (app, v, k(v, tf[2]), rej, c_, c_)
             return '(do %s <- %s; %s)' % (v, app, k(v, tf[2]))
         return k(app, tf[2])
 
@@ -611,6 +624,7 @@ class Tr:
 
     # ---- conditions with narrowing ------------------------------------------------------------------
     def cond(self, e, env, kt, kf):
+        self.stmt_env = env
         if self.spec.get('expr_rewrites') and ast.unparse(e) in self.spec['expr_rewrites']:
             tmpl, t = self.spec['expr_rewrites'][ast.unparse(e)]
             if t != 'bool':
@@ -647,6 +661,9 @@ class Tr:
         return self.expr(e, env, lambda a, ta: self._truth(a, ta, env, kt, kf))
 
     def _truth(self, a, ta, env, kt, kf):
+        if ta == ('option', 'Z') and self.spec.get('or_default'):
+            # truth value of an Optional datetime: None is false, a datetime is never false
+            return '(match %s with None => %s | Some _ => %s end)' % (a, kf(env), kt(env))
         if ta != 'bool':
             raise Unsupported('truth value of a %s' % (ta,))
         return '(if %s then %s else %s)' % (a, kt(env), kf(env))
@@ -725,6 +742,13 @@ class Tr:
                 def call_setter(x1):
                     def with_value(v, tv):
                         h2 = self.fresh(hname)
+                        if self.xmode():
+                            r_ = self.fresh('acc')
+                            env_after = self.after_write(env, h2)
+                            kx = self.fresh('k')
+                            return "(do '(%s, %s) <- %s %s %s %s; match %s with XErr => %s | XRaise %s => Ok (%s, XRaise %s) | XRet _ => %s end)" % (
+                                h2, r_, self.fill(fn, env), self.H(env), x1, self.coerce(v, tv, vtype, 'as the assigned value'),
+                                r_, self.rejected(env_after), kx, self.state_value(env_after), kx, nxt(env_after))
                         return "(do '(%s, _) <- %s %s %s %s; %s)" % (h2, self.fill(fn, env), self.H(env), x1, self.coerce(v, tv, vtype, 'as the assigned value'),
                                                                      nxt(self.after_write(env, h2)))
                     return self.expr(s.value, env, with_value)
@@ -755,6 +779,12 @@ class Tr:
 
             def with_all(atoms):
                 h2 = self.fresh(hname)
+                if self.xmode():
+                    r_ = self.fresh('acc')
+                    env_after = self.after_write(env, h2)
+                    kx = self.fresh('k')
+                    return "(do '(%s, %s) <- %s %s; match %s with XErr => %s | XRaise %s => Ok (%s, XRaise %s) | XRet _ => %s end)" % (
+                        h2, r_, self.fill(fn, env), ' '.join(atoms), r_, self.rejected(env_after), kx, self.state_value(env_after), kx, nxt(env_after))
                 return "(do '(%s, _) <- %s %s; %s)" % (h2, self.fill(fn, env), ' '.join(atoms), nxt(self.after_write(env, h2)))
             return self.args(exprs, [t for _, t in formals], env, with_all)
         if isinstance(s, ast.Assign) and len(s.targets) > 1 and all(
@@ -767,7 +797,13 @@ class Tr:
                 if i == len(stmts):
                     return nxt(env1)
                 return self.heap_write(stmts[i], env1, lambda env2: chain(i + 1, env2))
-            return self.expr(s.value, env, lambda v, tv: self.bind(tmp, v, tv, env, lambda env1: chain(0, env1)))
+            def got(v, tv):
+                if tv in ('none', 'intlit'):
+                    env1 = dict(env)
+                    env1[tmp] = (v, tv)
+                    return chain(0, env1)
+                return self.bind(tmp, v, tv, env, lambda env1: chain(0, env1))
+            return self.expr(s.value, env, got)
         if isinstance(s, ast.Assign) and len(s.targets) == 1 and isinstance(s.targets[0], ast.Attribute) \
                 and s.targets[0].attr in writes:
             tgt = s.targets[0]
@@ -896,8 +932,8 @@ class Tr:
                     names.append(n.value.func.value.id)
                 hn = self.spec.get('heap')
                 if hn and hn not in names and hn in self.state_names():
-                    if (isinstance(n, ast.Assign) and len(n.targets) == 1 and isinstance(n.targets[0], ast.Attribute)
-                            and n.targets[0].attr in self.spec.get('obj_writes', {})) or \
+                    if (isinstance(n, ast.Assign) and any(isinstance(t_, ast.Attribute) and t_.attr in self.spec.get('obj_writes', {})
+                                                          for t_ in n.targets)) or \
                        (isinstance(n, ast.Assign) and len(n.targets) == 1 and isinstance(n.targets[0], ast.Subscript)
                             and isinstance(n.targets[0].value, ast.Attribute)
                             and n.targets[0].value.attr in self.spec.get('obj_writes', {})) or \
@@ -943,6 +979,7 @@ class Tr:
         if not stmts:
             return fall(env)
         s, rest = stmts[0], stmts[1:]
+        self.stmt_env = env
         nxt = lambda env1: self.block(rest, env1, fall, loop)
         if isinstance(s, ast.Expr) and isinstance(s.value, ast.Constant) and isinstance(s.value.value, str):
             return nxt(env)                                  # docstring
@@ -955,9 +992,13 @@ class Tr:
 
             def result(a, ta):
                 v = self.coerce(a, ta, self.ret, 'as the result')
+                if self.xmode():
+                    return 'Ok (%s, XRet %s)' % (self.state_value(env), v)
                 return 'Ok (%s, %s)' % (self.state_value(env), v) if st else 'Ok %s' % v
             if s.value is None:
                 if self.ret == 'unit':
+                    if self.xmode():
+                        return 'Ok (%s, XRet tt)' % self.state_value(env)
                     return 'Ok (%s, tt)' % self.state_value(env) if st else 'Ok tt'
                 return result('None', 'none')
             return self.expr(s.value, env, result)
@@ -966,8 +1007,10 @@ class Tr:
             name = exc.func.id if isinstance(exc, ast.Call) and isinstance(exc.func, ast.Name) else \
                 (exc.id if isinstance(exc, ast.Name) else None)
             if name == 'RuntimeError':
-                return 'Err'
+                return self.rejected(env) if self.xmode() else 'Err'
             if name in ('KeyError', 'TypeError', 'ValueError', 'IndexError', 'ZeroDivisionError', 'AttributeError'):
+                if self.xmode():
+                    return 'Ok (%s, XRaise %s)' % (self.state_value(env), name)      # an explicit raise: the state is known
                 return 'Crash %s' % name
             raise Unsupported('raise %s' % ast.unparse(s))
         if isinstance(s, ast.Continue):
@@ -1052,8 +1095,8 @@ class Tr:
                 raise Unsupported('keywords in %s' % ast.unparse(val))
             chosen = list(val.args) if mut_idx is None else [val.args[i] for i in mut_idx]
             return self.args(chosen, argtypes, env, after_call)
-        if isinstance(s, ast.AugAssign) and isinstance(s.target, ast.Attribute) and s.target.attr in self.spec.get('obj_writes', {}) \
-                and isinstance(s.target.value, ast.Name):
+        if isinstance(s, ast.AugAssign) and isinstance(s.target, ast.Attribute) and isinstance(s.target.value, ast.Name) and \
+                (s.target.attr in self.spec.get('obj_writes', {}) or s.target.attr in self.spec.get('prop_setters', {})):
             # x.f op= e  is  x.f = x.f op e
             load = ast.Attribute(value=s.target.value, attr=s.target.attr, ctx=ast.Load())
             s = ast.Assign(targets=[s.target], value=ast.BinOp(left=load, op=s.op, right=s.value))
@@ -1336,6 +1379,8 @@ class Tr:
 
     def res_type(self):
         st = self.spec.get('state')
+        if st and self.xmode():
+            return '(res (%s * xout %s))' % (ty_str(self.state_type), ty_str(self.ret))
         if st:
             return '(res (%s * %s))' % (ty_str(self.state_type), ty_str(self.ret))
         return '(res %s)' % ty_str(self.ret)
@@ -1377,6 +1422,8 @@ class Tr:
             if isinstance(self.ret, tuple) and self.ret[0] == 'option':
                 return 'Ok (%s, None)' % self.state_value(env1) if st else 'Ok None'
             if self.ret == 'unit':
+                if self.xmode():
+                    return 'Ok (%s, XRet tt)' % self.state_value(env1)
                 return 'Ok (%s, tt)' % self.state_value(env1) if st else 'Ok tt'
             raise Unsupported('control can fall off the end of the function')
         body = self.block(list(fn.body), env, fall)
